@@ -346,6 +346,13 @@ func (g *gen) simpleCases() {
 		return
 	}
 	g.add(line, "simple:generated")
+	// a simple glyph and the nil glyph have no components, and FixComponents
+	// hands them back unchanged
+	ml := vlib.List{vlib.L(vlib.Int(r.Intn(65536)), vlib.Int(r.Intn(65536)))}
+	g.add(vlib.Line(vlib.Atom("comps"), glyphSx(gl)), "comps:simple")
+	g.add(vlib.Line(vlib.Atom("fix"), ml, glyphSx(gl)), "fix:simple")
+	g.add(vlib.Line(vlib.Atom("comps"), glyphSx(nil)), "comps:nil")
+	g.add(vlib.Line(vlib.Atom("fix"), ml, glyphSx(nil)), "fix:nil")
 	// tight + padding through removePadding
 	pad := r.Intn(4)
 	padded := append(append([]byte{}, s.Encoded...), make([]byte, pad)...)
